@@ -42,6 +42,31 @@ type LoopSpec struct {
 	Chunks []int      `json:"chunks"` // sizes of the messages the primary side serves, used cyclically
 	Fails  []FailSpec `json:"fails"`
 	Settle bool       `json:"settle,omitempty"` // keep the loop running for one more recovery cycle after the last entry
+	// Slow: the applier's FIRST Apply of write operation Op blocks for StallMs
+	// (longer than any plausible per-apply deadline) and then carries the apply
+	// out; later attempts for the same entry are prompt. A stalled call that a
+	// replica abandons still completes - and must not take effect late.
+	Slow *SlowSpec `json:"slow,omitempty"`
+}
+
+// SlowSpec is the "slow apply" fault.
+type SlowSpec struct {
+	Op      int `json:"op"`
+	StallMs int `json:"stall_ms"`
+}
+
+// slowBudget bounds the number of (6-9 s) slow-apply cases per process. Only a
+// case that PASSED uses it up, so a failing one can be re-run while shrinking.
+var slowBudget = -1
+
+func slowBudgetLeft() bool {
+	if slowBudget < 0 {
+		slowBudget = 1
+		if ev.Tier() == "thorough" {
+			slowBudget = 2
+		}
+	}
+	return slowBudget > 0
 }
 
 func genLoop(t *rapid.T, p *drive.Program) *LoopSpec {
@@ -70,6 +95,37 @@ func genLoop(t *rapid.T, p *drive.Program) *LoopSpec {
 		budget -= times
 		l.Fails = append(l.Fails, FailSpec{Op: op, Times: times})
 	}
+	// slow apply: rare and expensive; drawn like everything else, demoted when
+	// this process has had its share
+	if nw >= 2 && rapid.IntRange(0, 3).Draw(t, "slow") == 0 {
+		// prefer an entry whose key is written again later (the end state then shows a late apply too)
+		var writes []drive.Step
+		for _, s := range p.Steps {
+			if s.IsWrite() {
+				writes = append(writes, s)
+			}
+		}
+		var cands []int
+		for i := 0; i < nw-1; i++ {
+			for j := i + 1; j < nw; j++ {
+				if len(writes[i].Tx) == 0 && len(writes[j].Tx) == 0 && writes[i].K == writes[j].K {
+					cands = append(cands, i+1)
+					break
+				}
+			}
+		}
+		op := rapid.IntRange(1, nw-1).Draw(t, "slowop")
+		if len(cands) > 0 && rapid.IntRange(0, 4).Draw(t, "slowoverwritten") != 0 {
+			op = cands[rapid.IntRange(0, len(cands)-1).Draw(t, "slowcand")]
+		}
+		stall := 5500 + 100*rapid.IntRange(0, 25).Draw(t, "stall")
+		if slowBudgetLeft() {
+			l.Slow = &SlowSpec{Op: op, StallMs: stall}
+			l.Fails = nil // one fault kind per case keeps the slow cases as short as they can be
+		} else {
+			ev.R().Count("loop_slow_apply_demoted_by_budget", 1)
+		}
+	}
 	return l
 }
 
@@ -92,9 +148,19 @@ type loopApplier struct {
 	lastFail string // position of the most recent injected failure
 	pos      map[string]int
 	nFail    int
+	// slow apply
+	stallSeq    uint64
+	stallFor    time.Duration
+	stallUsed   bool
+	stallActive int
+	stallDone   time.Time
+	lateCtx     bool
 }
 
 func (a *loopApplier) ctx() string {
+	if a.lateCtx {
+		return "loop+after-stalled-apply"
+	}
 	if a.lastFail == "" {
 		return "loop"
 	}
@@ -113,6 +179,23 @@ func (a *loopApplier) Apply(e *wal.Entry) error {
 	a.inMsg++
 	if a.viol != nil {
 		return errors.New("oracle already failed")
+	}
+	if a.stallFor > 0 && !a.stallUsed && e.SequenceNumber == a.stallSeq {
+		// the first attempt stalls (without holding the applier's lock) and is
+		// then carried out; it is never refused
+		a.stallUsed = true
+		a.stallActive++
+		a.note(fmt.Sprintf("apply %d stalls for %v", e.SequenceNumber, a.stallFor))
+		a.mu.Unlock()
+		time.Sleep(a.stallFor)
+		a.mu.Lock()
+		a.stallActive--
+		a.stallDone = time.Now()
+		a.lateCtx = true
+		a.note(fmt.Sprintf("stalled apply %d resumes", e.SequenceNumber))
+		if a.viol != nil {
+			return errors.New("oracle already failed")
+		}
 	}
 	if a.fails[e.SequenceNumber] > 0 {
 		a.fails[e.SequenceNumber]--
@@ -273,6 +356,11 @@ func runLoopCase(c *Case) (out outcome, trace []string) {
 			ap.fails[h.tr.seqOf[f.Op]] += f.Times
 		}
 	}
+	slow := c.Loop.Slow != nil && c.Loop.Slow.Op >= 1 && c.Loop.Slow.Op < len(h.tr.seqOf)
+	if slow {
+		ap.stallSeq = h.tr.seqOf[c.Loop.Slow.Op]
+		ap.stallFor = time.Duration(c.Loop.Slow.StallMs) * time.Millisecond
+	}
 	cfg := replication.DefaultReplicaConfig()
 	cfg.CompressionSupported = c.Repl.CompressionSupported
 	cfg.PreferredCodec = pb.CompressionCodec(c.Repl.PreferredCodec)
@@ -295,14 +383,26 @@ func runLoopCase(c *Case) (out outcome, trace []string) {
 	// verdict (a replica that does not get there is C14's business)
 	converged := false
 	deadline := start.Add(20 * time.Second)
+	if slow {
+		deadline = start.Add(60 * time.Second)
+	}
 	var doneAt time.Time
 	for time.Now().Before(deadline) {
 		ap.mu.Lock()
 		failed := ap.viol != nil
 		done := o.maxApplied >= h.tr.maxSeq
+		stalled := ap.stallActive > 0 || (slow && !ap.stallUsed)
+		grace := !ap.stallDone.IsZero() && time.Since(ap.stallDone) < 300*time.Millisecond
 		ap.mu.Unlock()
 		if failed {
 			break
+		}
+		if done && (stalled || grace) {
+			// the replica has caught up, but a stalled Apply call is still out (or
+			// has only just returned): the case ends after it, nothing may be applied then
+			converged = true
+			time.Sleep(2 * time.Millisecond)
+			continue
 		}
 		if done {
 			converged = true
@@ -348,8 +448,16 @@ func runLoopCase(c *Case) (out outcome, trace []string) {
 	add(ap.nFail >= 2, "loop_recoveries>=2")
 	add(converged, "loop_converged")
 	add(c.Loop.Settle, "loop_settle_cycle")
+	add(slow && ap.stallUsed, "loop_slow_apply(stall>5s)")
+	add(slow && ap.stallUsed && ap.stallSeq < h.tr.maxSeq, "loop_slow_apply_followed_by_later_entries")
+	if slow && ap.stallUsed {
+		ev.R().Count("loop_slow_apply_cases", 1)
+		if ap.viol == nil {
+			slowBudget--
+		}
+	}
 	add(h.flushes > 0, "history_with_flush")
-	out.nontriv = ap.pos["middle"]+ap.pos["last"] > 0
+	out.nontriv = ap.pos["middle"]+ap.pos["last"] > 0 || (slow && ap.stallUsed && ap.stallSeq < h.tr.maxSeq)
 	add(out.nontriv, "nontrivial")
 	out.classes = cl
 	ev.R().Count("loop_cases", 1)
@@ -363,4 +471,57 @@ func runLoopCase(c *Case) (out outcome, trace []string) {
 	}
 	ev.R().Count("entries_applied", o.applied)
 	return out, ap.trace
+}
+
+// A failing loop case costs 0.3-1 s per execution (6-9 s with a slow apply),
+// and the library's shrinker re-executes candidates by the hundred, well past
+// its time limit. Three measures keep a FAILING run short without changing any
+// verdict: the outcome of a loop case is remembered by case hash (same input,
+// same verdict - also for the library's final re-run of the minimal case);
+// after the first failure only two further distinct slow-apply candidates are
+// executed, later ones lose their slow-apply fault (the case value says so);
+// and after 30 further loop executions the remaining candidates are not
+// executed at all (reported as passing, class loop_not_executed_while_shrinking).
+// None of this can happen before a violation has been recorded in the process.
+type loopResult struct {
+	out   outcome
+	trace []string
+}
+
+var (
+	loopSeen         = map[uint64]loopResult{}
+	loopFailed       bool
+	loopRunsAfterBad int
+	slowRunsAfterBad int
+)
+
+func runLoopCaseBounded(c *Case) (outcome, []string) {
+	h := ev.Hash(c)
+	if r, ok := loopSeen[h]; ok {
+		ev.R().Count("loop_verdict_reused", 1)
+		return r.out, r.trace
+	}
+	if loopFailed {
+		if loopRunsAfterBad >= 30 {
+			ev.R().Count("loop_not_executed_while_shrinking", 1)
+			return outcome{classes: []string{"variant_loop", "loop_not_executed_while_shrinking"}}, nil
+		}
+		loopRunsAfterBad++
+		if c.Loop != nil && c.Loop.Slow != nil {
+			if slowRunsAfterBad >= 2 {
+				ev.R().Count("loop_slow_apply_dropped_while_shrinking", 1)
+				c.Loop.Slow = nil
+			} else {
+				slowRunsAfterBad++
+			}
+		}
+	}
+	out, trace := runLoopCase(c)
+	if out.viol != nil {
+		loopFailed = true
+	}
+	if len(loopSeen) < 5000 {
+		loopSeen[h] = loopResult{out, trace}
+	}
+	return out, trace
 }
